@@ -437,6 +437,24 @@ func init() {
 					do(calls[(j*11+3)%len(calls)])
 				}
 			}
+			// state keyed by something weaker than the arguments (same file name, same length): a twin of the input with
+			// one blank turned into a newline has the same length and another line structure; twin and input alternate
+			// with an unrelated call in between, so a stale line table or cached result shows as a changed result
+			for i, c := range calls {
+				if i >= 150 {
+					break
+				}
+				k := strings.IndexByte(c.Input, ' ')
+				if k < 0 {
+					continue
+				}
+				twin := callSpec{c.Entry, c.Input[:k] + "\n" + c.Input[k+1:]}
+				do(twin)
+				do(c)
+				do(callSpec{"ParseType", "INT64."})
+				do(c)
+				do(twin)
+			}
 			for _, kp := range keep {
 				args := sha(kp.c.Entry + "\x00" + kp.c.Input)
 				again := pureCall{Args: args, Res: resultDigest(kp.nodes, kp.err), Entry: kp.c.Entry, Input: kp.c.Input}
